@@ -1056,8 +1056,8 @@ def extract_comments(source):
     else:
         lines = source
 
-    # Only iterate through non-empty lines otherwise tokenize will stop short
-    iterable = (line for line in lines if line)
+    # Only iterate through non-blank lines otherwise tokenize will stop short
+    iterable = (line for line in lines if line.strip())
     def _readline():
         return next(iterable)
     try:
